@@ -29,6 +29,7 @@ def run(rep, prog, tier):
     rep.rule('C14.4', 'copy completeness', floor=9)
     rep.rule('C14.5', 'attachment inserts; embedded signatures extracted', floor=5)
     rep.rule('C14.6', 'copies of key material and signature material carry every attribute their serialiser reads', floor=20)
+    rep.rule('C14.8', 'an exported key can be read back: packet length fields (all widths and boundaries), the armor writer (CRC-24 in exactly three octets, line layout) and non-UTF-8 user ids round-trip', floor=10)
     rep.rule('C14.7', 'octet widths of exported key material are ceilings of the bit length; EC points and MPIs re-parse to what was written', floor=10)
     rep.assume('SorteDeque.insort keeps elements with equal keys (bisect insertion, no replacement)')
     rep.assume('SubPackets: `name in sp` holds exactly when sp[name] is a non-empty list (lookup by subpacket name in both areas)')
@@ -40,6 +41,7 @@ def run(rep, prog, tier):
     attach(rep, prog)
     material_copies(rep, prog)
     material_widths(rep, prog)
+    export_readable(rep, prog)
 
 
 def material_widths(rep, prog):
@@ -47,6 +49,60 @@ def material_widths(rep, prog):
     read with (P-521: 66 octets per coordinate, not 65) - the finite-point family of C18.10, reported here."""
     from rules import C18
     C18.check_widths(rep, prog, 'C14.7')
+
+
+class _Relabel(object):
+    """Reports a shared rule family under this property's rule id."""
+    def __init__(self, rep, rid):
+        self.rep, self.rid = rep, rid
+
+    def __getattr__(self, k):
+        return getattr(self.rep, k)
+
+    def check(self, cond, rid, *a, **kw):
+        return self.rep.check(cond, self.rid, *a, **kw)
+
+    def violation(self, rid, *a, **kw):
+        return self.rep.violation(self.rid, *a, **kw)
+
+    def ok(self, rid, *a, **kw):
+        return self.rep.ok(self.rid, *a, **kw)
+
+    def error(self, rid, *a, **kw):
+        return self.rep.error(self.rid, *a, **kw)
+
+
+def export_readable(rep, prog):
+    """C14.8: what is exported must be importable again.  (1) packet length fields: the width selection / widening rules of C09
+    (old- and new-format, exact at the boundaries 255/256, 65535/65536, 191/192, 8383/8384); (2) the armor writer of C10 (payload
+    and CRC from the same octets, CRC-24 in exactly three octets, line layout); (3) a user id whose octets are not valid UTF-8 is
+    written back as the octets it was read from (finite-point evaluation: parse, then serialise)."""
+    from rules import C09, C10
+    P = _Relabel(rep, 'C14.8')
+    H = prog.cls('pgpy.types', 'Header')
+    C09.widths(P, prog, H, C09.Bench(P, prog))
+    A = prog.cls('pgpy.types', 'Armorable')
+    C10.crc(P, prog, A)
+    C10.writer(P, prog, A)
+    # (3)
+    from sa import ceval
+    U = prog.cls('pgpy.packet.packets', 'UserID')
+    E = ceval.Evaluator(prog)
+    for body in (b'R\xe9ne', b'Ren\xc3\xa9', b'plain ascii <a@b.c>', b'\xff\xfe\x00'):
+        try:
+            u = E.new(U)
+            E.set(E.get(u, 'header'), 'length', len(body))      # the header was read by the packet dispatcher; parse gets the body
+            E.method(u, 'parse', ceval.VBuf(body))
+            out = E.tobytes(E.method(u, '__bytearray__'))
+            got = bytes(out) if out is not None else None
+        except ceval.Raised as ex:
+            got = 'raises %s' % ex.name
+        except (ceval.NoEval, ceval.Diverged) as ex:
+            raise AnalysisError('UserID parse / serialise: outside the checker\'s evaluator: %s' % ex)
+        tail = got[-len(body):] if isinstance(got, bytes) else got
+        rep.check(tail == body, 'C14.8', 'UserID', 'octets %r -> written back %r' % (body, tail),
+                  'a user id is written back as the octets it was read from, also when they are not valid UTF-8 (the fallback decoding must '
+                  'be remembered until export)', where=U.where, expected=repr(body), found=repr(tail))
 
 
 def material_copies(rep, prog):
